@@ -183,6 +183,27 @@ CLAIMS = {
   note=TB + " The database clause is exhaustive over the real entries; helical invariance and mating are seeded samples judged (not "
        "computed) by TLC; starts beyond +-3 and thread lengths are not varied. Known finding: ScrewSDF3.Evaluate uses atan(taper) "
        "for the taper slope."),
+ "C19": dict(
+  text="DualContour.tla transcribes both dual-contouring renderers on symbolic vertices (the cell that owns the vertex): "
+       "the uniform grid of dc3v2.go (one vertex per mixed cell, a quad per sign-changing far edge with the code's k1,k2,k3 "
+       "offsets and xor flip) and the octree recursion of dc3v1.go (cellProc/faceProc/edgeProc/processEdge, leaves only) over "
+       "the mask tables read from the tree under test. TLC checks, for all 256 sign fields of a 2x2x2 block of free corners "
+       "inside a positive ring and LCG-sampled 3x3x3, non-cubic and {N,z,P} blocks, that every directed edge is matched, "
+       "there is one quad per sign-changing lattice edge, no neighbour is missing and the signed volume with cell centres "
+       "equals the number of solid corners. Every world is rendered twice by the real DualContouringV2 (vertex clamping on) "
+       "and DualContouringV1 (vertex locking on, no simplification) as a continuous trilinear field; DCTrace.tla judges the "
+       "property on the real triangles (balance after identifying coincident vertices, no degenerate triangle, positive "
+       "volume, finite vertices inside the sampled box, identical repeated run) and compares vertex-to-cell ownership and "
+       "the quad set with the model as drift. Spheres, boxes, rotated boxes, cylinders, unions and differences with enlarged "
+       "boxes at several resolutions are measured (unmatched directed edges, degenerate triangles, volume, vertex-to-surface "
+       "distance in cell diagonals, determinism) and judged by DCMeasureTrace.tla.",
+  design_ref="DESIGN.md section 6 C19 and section 10", technique="TLC world enumeration over the code's tables + replay into both real renderers + TLC trace validation of real meshes; measured numerics judged by a TLC trace spec",
+  note=TB + " The QEF vertex position is not modelled (any point of the cell); the one-cell-diagonal clause is measured on seeded "
+       "shapes (for CSG shapes |f| is a lower bound of the distance). The premise 'surface strictly inside the sampled volume' is "
+       "built into the worlds (positive ring) and the enlarged boxes; quads at the volume boundary are outside the property. "
+       "The render/dc tables are read through go:linkname (no verif export exists). Three genuine defects are recorded in "
+       "known_findings.json (V2 drops a proper triangle together with a degenerate one -> hole; V2 and V1 emit zero-area "
+       "triangles)."),
 }
 
 NOT_APPLICABLE = {}
